@@ -32,12 +32,12 @@ type mk struct {
 	cfg  string
 	new  func() core.MeasurementInterface
 	// warm: number of leading samples for which the value must be the arithmetic mean (0 = none);
-	hull bool // value must stay in [min,max] of the samples since reset
-	min  bool
-	last bool
-	nonneg bool
+	hull    bool // value must stay in [min,max] of the samples since reset
+	min     bool
+	last    bool
+	nonneg  bool
 	flagTol float64 // relative change of Get() below which the flag is not required
-	warm func() int
+	warm    func() int
 }
 
 func sample(r *rand.Rand, pool *[]float64) float64 {
@@ -425,6 +425,66 @@ func concurrentMinimum(idx int64, r *rand.Rand) {
 	rt.Distinct(fmt.Sprintf("concmin|%v", vals))
 }
 
+// varianceAlphaEffect (metamorphic): two moving variances that differ only in alphaVariance must not report the same
+// variance throughout a varied sample sequence - the parameter that names the variance's smoothing has to matter.
+func varianceAlphaEffect(idx int64, r *rand.Rand) {
+	as := []float64{0.05, 0.1, 0.25, 0.5, 0.9}
+	a := as[r.IntN(len(as))]
+	i1 := r.IntN(len(as))
+	i2 := (i1 + 1 + r.IntN(len(as)-1)) % len(as)
+	v1, err1 := measurements.NewSimpleMovingVariance(a, as[i1])
+	v2, err2 := measurements.NewSimpleMovingVariance(a, as[i2])
+	if err1 != nil || err2 != nil {
+		panic("variance ctor")
+	}
+	differ := false
+	var xs []float64
+	for i := 0; i < 40; i++ {
+		x := 1 + r.Float64()*1000
+		xs = append(xs, x)
+		v1.Add(x)
+		v2.Add(x)
+		if v1.Get() != v2.Get() {
+			differ = true
+		}
+	}
+	rt.Count("variance_alpha_twin_pairs", 1)
+	if !differ {
+		rt.Violation("C18/variance/alpha-variance-has-no-effect", idx, rt.J{"alpha_average": a, "alpha_variance_1": as[i1], "alpha_variance_2": as[i2],
+			"samples_head": xs[:8], "final_get": v1.Get()})
+		return
+	}
+	rt.Distinct(fmt.Sprintf("varalpha|%g|%g|%g|%g", a, as[i1], as[i2], xs[0]))
+}
+
+// concurrentSingleUpdate: Update is a read-modify-write of the stored value; N goroutines x K increments must add up.
+func concurrentSingleUpdate(idx int64, r *rand.Rand) {
+	m := &measurements.SingleMeasurement{}
+	n, k := 2+r.IntN(7), 50+r.IntN(200)
+	var wg sync.WaitGroup
+	var ready atomic.Int32
+	for g := 0; g < n; g++ {
+		wg.Add(1)
+		go func() {
+			defer wg.Done()
+			ready.Add(1)
+			for ready.Load() < int32(n) {
+				runtime.Gosched()
+			}
+			for i := 0; i < k; i++ {
+				m.Update(func(v float64) float64 { return v + 1 })
+			}
+		}()
+	}
+	wg.Wait()
+	rt.Count("concurrent_single_update_rounds", 1)
+	if got := m.Get(); got != float64(n*k) {
+		rt.Violation("C18/single/concurrent-updates-lost", idx, rt.J{"goroutines": n, "increments_each": k, "get": got, "want": n * k})
+		return
+	}
+	rt.Distinct(fmt.Sprintf("concsingle|%d|%d", n, k))
+}
+
 func TestCheck(t *testing.T) {
 	rt.Cases(30000, 3000000, func(idx int64) {
 		r := rt.CaseRand(18, idx)
@@ -435,6 +495,14 @@ func TestCheck(t *testing.T) {
 		}
 		if idx%12 == 4 {
 			concurrentMinimum(idx, r)
+			return
+		}
+		if idx%24 == 10 {
+			varianceAlphaEffect(idx, r)
+			return
+		}
+		if idx%24 == 22 {
+			concurrentSingleUpdate(idx, r)
 			return
 		}
 		m := genKinds(r)
